@@ -220,6 +220,11 @@ func C05(c *fw.Ctx) {
 	}
 	g := &skGen{maxDepth: depth}
 	mach := func() *model.Machine { return &model.Machine{MaxSteps: 3000} }
+	pool := newProgPool(40)
+	defer func() {
+		// every ordered pair of an evenly spread sub-sequence of this shard's skeleton programs, as `{ P } { Q }`
+		composePairs(c, "skeletons", pool, judgeOpts{Machine: &model.Machine{MaxSteps: 6000}})
+	}()
 	n := 0
 	g.stmts(size, skCtx{}, func(s *model.N, used int) {
 		n++
@@ -230,6 +235,7 @@ func C05(c *fw.Ctx) {
 		prog := append(prelude(), model.Print(model.Str("begin")), s, model.Print(model.Str("end")))
 		k := 0
 		retag(s, &k)
+		pool.offer(prog)
 		_, _, skipped := judge(c, prog, judgeOpts{Machine: mach(), SigPrefix: "skeleton"})
 		if !skipped {
 			c.R.States++
